@@ -157,6 +157,10 @@ def alphabet():
             evs.append(hist.Event("transform", inst, "V13_" + n.replace("-", "_"), texts))
     evs.append(hist.Event("transform", "A", NOPED_NAME, ["{ RdV = mem_load_u8(RsV); P0 = 1; }"]))
     evs.append(hist.Event("stmt", "A", "V13_stmt_p2", ["{ P2 = RsV; }"]))
+    # one instruction name (and names the extension folds onto it) used with different behaviours
+    for inst in ("A", "B"):
+        for i, (nm, beh) in enumerate([("V13_shared", "none"), ("V13_shared", "all"), ("dep_V13_shared", "wpred-p1p3"), ("V13_shared_undocumented", "load"), ("IMPORTED_V13_shared", "two-part")]):
+            evs.append(hist.Event("transform", inst, nm, BEHAVIOURS[beh], variant="v%d" % i))
     return evs
 
 
@@ -227,6 +231,12 @@ def run(ctx):
         return check_meta(obs[2], ev.texts)
 
     sr = hist.search(ctx, alpha, depth, check, drop=drop)
+    pairs = hist.all_pairs(ctx, alpha, check, drop=drop)
+    seen_v = set((tuple(e.label() for e in h), ev.label()) for h, ev, _o, _b in sr["violations"])
+    for v in pairs["violations"]:
+        if (tuple(e.label() for e in v[0]), v[1].label()) not in seen_v:
+            sr["violations"].append(v)
+    sr["transitions"] += pairs["pair_transitions"]
     for h, ev, obs, bad in sr["violations"]:
         ctx.report({"history": [e.label() for e in h], "history_texts": [e.texts for e in h], "event": ev.label(), "texts": ev.texts, "why": bad}, None, what="after [%s]: %s: %s" % (", ".join(e.label() for e in h), ev.label(), bad))
     ctx.sample({"history": [alpha[18].label(), alpha[20].label()], "event": alpha[16].label(), "invariant": "attributes == those implied by the event's own text"})
@@ -240,6 +250,7 @@ def run(ctx):
             fixpoint_reached=(sr["frontier_left"] == 0),
             levels=sr["levels"],
             events=len(alpha),
+            unmerged_length2_histories=pairs["pair_transitions"],
             generated_parts_checked=n_gen_ok,
             generated_parts_rejected=n_gen_rej,
             generated_parts_distinct_attribute_sets=len(gen_attr_sets),
